@@ -1,6 +1,7 @@
 package rules
 
 import (
+	"sort"
 	"go/token"
 	"go/types"
 
@@ -17,8 +18,11 @@ type Sched struct {
 	Execute    *ssa.Function // (*Node).Execute
 	IsReady    *ssa.Function
 	Launch     *ssa.Go       // the unique `go` whose closure reaches Execute
-	Loop       *ssa.Function // the scheduling loop (function holding Launch)
-	Worker     *ssa.Function // the launched closure
+	Loop       *ssa.Function // the scheduling loop: the function the launch belongs to in the virtual inlining view
+	LaunchFn   *ssa.Function // the function that textually holds the go statement (Loop itself, or a single-call-site helper of it)
+	Worker     *ssa.Function // the launched closure / method
+	LoopFns    map[*ssa.Function]bool // Loop and the single-call-site helpers it is made of (worker side excluded)
+	WorkerFns  map[*ssa.Function]bool // Worker and the single-call-site helpers it is made of
 	LoopNode   ssa.Value     // the node handed to the worker, in Loop's frame
 	WorkerNode ssa.Value     // the worker's node parameter
 	NodeStatus types.Type
@@ -35,10 +39,9 @@ const statusSuffix = "data.State.Status"
 func (e *Env) resolveSched() *Sched {
 	s := &Sched{e: e}
 	s.Execute = e.Fn(schedRel, "(*Node).Execute")
-	s.IsReady = e.Fn(schedRel, "isReady")
 	s.NodeStatus, s.NS = e.EnumOf(schedRel, "NodeStatus")
 	s.Status, s.SS = e.EnumOf(schedRel, "Status")
-	if s.Execute == nil || s.IsReady == nil || len(s.NS) == 0 || len(s.SS) == 0 {
+	if s.Execute == nil || len(s.NS) == 0 || len(s.SS) == 0 {
 		if len(s.NS) == 0 {
 			e.R.Unknown("anchor NodeStatus enum", "-", "type scheduler.NodeStatus or its constants not found")
 		}
@@ -76,8 +79,21 @@ func (e *Env) resolveSched() *Sched {
 		return s
 	}
 	s.Launch = launches[0]
-	s.Loop = s.Launch.Parent()
+	s.LaunchFn = s.Launch.Parent()
+	s.Loop = s.LaunchFn
+	for d := 0; d < 4; d++ {
+		site := ir.UniqueSite(s.Loop)
+		if site == nil {
+			break
+		}
+		if _, plain := site.(*ssa.Call); !plain {
+			break
+		}
+		s.Loop = site.Parent()
+	}
 	s.Worker = s.Launch.Call.StaticCallee()
+	s.WorkerFns = e.inlinedSet(s.Worker, nil)
+	s.LoopFns = e.inlinedSet(s.Loop, s.WorkerFns)
 	// node argument: the *Node typed argument / binding
 	for i, a := range s.Launch.Call.Args {
 		if ir.NamedType(a.Type()) == e.P.Pkg(schedRel).Pkg.Path()+".Node" {
@@ -105,8 +121,84 @@ func (e *Env) resolveSched() *Sched {
 		e.R.Unknown("launch site node argument", e.InstrPos(s.Launch), "cannot identify the *Node handed to the worker goroutine")
 		return s
 	}
+	// the readiness function, by role: the boolean function the launch is gated on
+	// that receives the node and walks other nodes
+	s.IsReady = e.readinessFunc(s)
+	if s.IsReady == nil {
+		s.IsReady = e.FnQuiet(schedRel, "isReady")
+	}
+	if s.IsReady == nil {
+		e.R.Unknown("readiness function", e.InstrPos(s.Launch), "the launch is not gated on a boolean function of the scheduler package that receives the node and walks the graph")
+		return s
+	}
 	s.ok = true
 	return s
+}
+
+// inlinedSet: root plus the repository functions and closures that the virtual
+// inlining view merges into it - those whose only call site (a plain call or a
+// defer, not a go statement) lies in the set.
+func (e *Env) inlinedSet(root *ssa.Function, exclude map[*ssa.Function]bool) map[*ssa.Function]bool {
+	set := map[*ssa.Function]bool{root: true}
+	work := []*ssa.Function{root}
+	for len(work) > 0 {
+		f := work[len(work)-1]
+		work = work[:len(work)-1]
+		for _, b := range f.Blocks {
+			for _, in := range b.Instrs {
+				ci, ok := in.(ssa.CallInstruction)
+				if !ok {
+					continue
+				}
+				if _, isGo := in.(*ssa.Go); isGo {
+					continue
+				}
+				g := ci.Common().StaticCallee()
+				if g == nil || !e.P.Funcs[g] || set[g] || exclude[g] {
+					continue
+				}
+				if ir.UniqueSite(g) == ci {
+					set[g] = true
+					work = append(work, g)
+				}
+			}
+		}
+	}
+	return set
+}
+
+// after: instruction b comes after instruction a on every path, where b may lie
+// in a single-call-site helper of a's function (its call site is used instead).
+func (s *Sched) after(a, b ssa.Instruction) bool {
+	for d := 0; d < 6; d++ {
+		if a.Parent() == b.Parent() {
+			return ir.Precedes(a, b)
+		}
+		us := ir.UniqueSite(b.Parent())
+		if us == nil {
+			return false
+		}
+		b = us
+	}
+	return false
+}
+
+func (s *Sched) inWorker(f *ssa.Function) bool { return s.WorkerFns[f] }
+func (s *Sched) inLoop(f *ssa.Function) bool   { return s.LoopFns[f] }
+
+// sortedFns returns a function set in source order.
+func sortedFns(m map[*ssa.Function]bool) []*ssa.Function {
+	var out []*ssa.Function
+	for f := range m {
+		out = append(out, f)
+	}
+	sort.Slice(out, func(i, j int) bool {
+		if out[i].Pos() != out[j].Pos() {
+			return out[i].Pos() < out[j].Pos()
+		}
+		return out[i].String() < out[j].String()
+	})
+	return out
 }
 
 func rootFn(f *ssa.Function) *ssa.Function {
@@ -131,7 +223,7 @@ func (s *Sched) isStatusOf(node ssa.Value) func(ssa.Value) bool {
 // address itself (PathOf strips loads).
 func sameElem(a, b ssa.Value) bool {
 	strip := func(v ssa.Value) ssa.Value {
-		v = ir.Resolve(v)
+		v = ir.Deep(v)
 		if u, ok := v.(*ssa.UnOp); ok && u.Op == token.MUL {
 			return u.X
 		}
